@@ -29,7 +29,7 @@ def _err(code, path=None, path2=None):
 
 
 class Inode:
-    __slots__ = ("ino", "kind", "data", "children", "atime", "mtime", "ctime", "nlink", "mode", "opens", "gen", "target")
+    __slots__ = ("ino", "kind", "data", "children", "atime", "mtime", "ctime", "nlink", "mode", "opens", "gen", "target", "holes")
 
     def __init__(self, ino, kind, now, mode):
         self.ino = ino
@@ -41,6 +41,7 @@ class Inode:
         self.nlink = 1 if kind == "f" else 2
         self.mode = mode
         self.opens = 0
+        self.holes = None  # set of 4096-byte block numbers inside the file that were never written (a sparse file)
         self.gen = 0  # bumped by every change of the file's data (harness-side identity of "this content")
 
 
@@ -199,8 +200,40 @@ class SimFS:
             a // 10**9, m // 10**9, c // 10**9,
             a / 1e9, m / 1e9, c / 1e9,
             a, m, c,
-            4096, (size + 511) // 512, 0,
+            4096, self._blocks512(node, size), 0,
         ))
+
+    BLOCK = 4096
+
+    def _blocks512(self, node, size):
+        """st_blocks: whole file-system blocks allocated to the file, in 512-byte units.  A block a process never
+        wrote into (it seeked or truncated past it) is a hole and takes no space: st_blocks * 512 may be far
+        below st_size (sparse files; seeded change s203 sized the cache by it)"""
+        if node.kind != "f":
+            return (size + 511) // 512
+        n = (size + self.BLOCK - 1) // self.BLOCK
+        if node.holes:
+            n -= len(node.holes)
+        return max(0, n) * (self.BLOCK // 512)
+
+    def _note_gap(self, node, start, end):
+        """bytes [start, end) came into being without being written: the blocks lying entirely inside are holes"""
+        first = (start + self.BLOCK - 1) // self.BLOCK
+        last = end // self.BLOCK
+        if last > first:
+            if node.holes is None:
+                node.holes = set()
+            node.holes.update(range(first, last))
+
+    def _note_written(self, node, start, end):
+        if node.holes and end > start:
+            for b in range(start // self.BLOCK, (end - 1) // self.BLOCK + 1):
+                node.holes.discard(b)
+
+    def _note_cut(self, node, length):
+        if node.holes:
+            keep = (length + self.BLOCK - 1) // self.BLOCK
+            node.holes = {b for b in node.holes if b < keep}
 
     def _touch_atime(self, node):
         pol = self.atime_policy
@@ -424,8 +457,10 @@ class SimFS:
         cur = len(node.data)
         if length < cur:
             del node.data[length:]
+            self._note_cut(node, length)
         elif length > cur:
             node.data.extend(b"\0" * (length - cur))
+            self._note_gap(node, cur, ((length + self.BLOCK - 1) // self.BLOCK) * self.BLOCK)
         node.mtime = node.ctime = self.clock.stamp()
         node.gen += 1
         self.mutations += 1
@@ -463,6 +498,7 @@ class SimFS:
             if trunc and writable:
                 if len(node.data):
                     del node.data[:]
+                node.holes = None
                 node.mtime = node.ctime = now
                 node.gen += 1
                 self.mutations += 1
@@ -509,8 +545,10 @@ class SimFS:
             of.pos = len(node.data)
         end = of.pos + n
         if of.pos > len(node.data):
+            self._note_gap(node, len(node.data), of.pos)
             node.data.extend(b"\0" * (of.pos - len(node.data)))
         node.data[of.pos:end] = b
+        self._note_written(node, of.pos, end)
         of.pos = end
         if n:
             node.mtime = node.ctime = self.clock.stamp()
@@ -694,6 +732,7 @@ class SimFS:
             node = Inode(self._next_ino(), "f", now, 0o644)
             parent.children[name] = node
         node.data = bytearray(data)
+        node.holes = None
         node.atime = node.mtime = node.ctime = now
         return node
 
